@@ -9,10 +9,10 @@ From TT Require Import Lib.Base Lib.Sort Model.Matchers.
 
 (* ---------- small decidable notions used by the statement ---------- *)
 Definition scalar (v : val) : bool :=
-  match v with VInt _ | VBool _ | VFloat _ | VStr _ | VBytes _ | VNone => true | _ => false end.
+  match v with VInt _ | VBool _ | VFloat _ | VStr _ | VBytes _ | VNone | VSet _ => true | _ => false end.
 Fixpoint plain (v : val) : bool :=
   match v with
-  | VInt _ | VBool _ | VFloat _ | VStr _ | VBytes _ | VNone => true
+  | VInt _ | VBool _ | VFloat _ | VStr _ | VBytes _ | VNone | VSet _ => true
   | VList l => forallb plain l
   | VDict kvs => forallb (fun kv => plain (snd kv)) kvs
   | VRec _ attrs => forallb (fun kv => plain (snd kv)) attrs
